@@ -48,6 +48,14 @@ CONSTANTS Svcs,        \* service names
                        \* request: such a request is rejected on the client side and the stream is finished
           RecursiveRLock, \* FALSE (the code): resubscribe takes the read lock once around flush + snapshot;
                        \* TRUE: the snapshot takes the read lock again (a helper that locks for itself)
+          Kinds,       \* what a signalled failure looks like to the client: gRPC status codes ("Canceled",
+                       \* "DeadlineExceeded", "Unavailable", "Internal", "ResourceExhausted") and "EOF" (the server ended
+                       \* the stream with OK).  The code retries regardless of the kind.
+          CanceledStops, \* FALSE (the code: Run polls its own context); TRUE: Run returns when the error that ended the
+                       \* stream has status Canceled
+          StartUnreachable, \* TRUE: the discovery server cannot be reached until the environment's ServerUp step
+          DialOnce,    \* FALSE (the code: grpc.Dial does not block, every stream creation tries again); TRUE: the
+                       \* connection is attempted once, at start, and the dynamic source is given up if that fails
           AsyncApply   \* FALSE (the code, discovery.go:46-60): the dependency receive loop applies a message
                        \* (Subscribe for every added, Unsubscribe for every removed service) before it takes the
                        \* next one; TRUE: every message is applied by a goroutine of its own
@@ -69,16 +77,18 @@ VARIABLES
   silent,              \* the current stream no longer reaches the server, and nothing has told the client
   srv,                 \* services subscribed on the current stream, as the server sees it
   fails,               \* failures injected so far
+  why,                 \* kind of the failure that ended the last stream / stream creation ("none" on a new stream)
+  reach,               \* the discovery server can be reached
   amb                  \* ghost: services whose last request on this stream named them in both lists
 
 vars == <<subscribed, subCh, unsubCh, lock, caller, cop, aq, ops, deps, run, rcv, snap, batchS, batchU,
-          up, silent, srv, fails, amb>>
+          up, silent, srv, fails, why, reach, amb>>
 
 \* appliers: the dependency receive loop itself (1), or - AsyncApply - goroutines started per message
 \* (two in flight are enough for the counterexample)
 Ap == IF AsyncApply THEN {1, 2} ELSE {1}
 
-RunPCs == {"newStream", "backoff", "resubLock", "resubSnap", "resubSend", "sendSelect", "sendBatch",
+RunPCs == {"stopped", "newStream", "backoff", "resubLock", "resubSnap", "resubSend", "sendSelect", "sendBatch",
            "sendResolve", "sendSend", "waitRecv"}
 
 TypeOK ==
@@ -97,6 +107,11 @@ Init ==
   /\ ops = 0 /\ deps = {}
   /\ run = "newStream" /\ rcv = "off" /\ snap = {} /\ batchS = {} /\ batchU = {}
   /\ up = FALSE /\ silent = FALSE /\ srv = {} /\ fails = 0 /\ amb = {}
+  /\ why = "none" /\ reach = ~StartUnreachable
+
+\* where run() / Run go when the stream or its creation has failed: the retry timer - or, in the variant,
+\* nowhere when the failure carried status Canceled
+AfterFailure(k) == IF CanceledStops /\ k = "Canceled" THEN "stopped" ELSE "backoff"
 
 Range(q) == {q[i] : i \in 1..Len(q)}
 
@@ -113,7 +128,7 @@ CallStart(s, kind) ==
   /\ DirectCalls /\ AllIdle /\ ops < MaxOps
   /\ deps' = IF kind = "sub" THEN deps \cup {s} ELSE deps \ {s}
   /\ cop' = [cop EXCEPT ![1] = <<kind, s>>] /\ caller' = [caller EXCEPT ![1] = "wantLock"] /\ ops' = ops + 1
-  /\ UNCHANGED <<subscribed, subCh, unsubCh, lock, aq, run, rcv, snap, batchS, batchU, up, silent, srv, fails, amb>>
+  /\ UNCHANGED <<subscribed, subCh, unsubCh, lock, aq, run, rcv, snap, batchS, batchU, up, silent, srv, fails, why, reach, amb>>
 
 (* Environment: the dependency stream delivers a message (added A, removed R).  *)
 (* The user's hook sees it at once, in order (deps).  The calls it stands for -  *)
@@ -130,14 +145,14 @@ DepMsg(A, R) ==
                                       \o [n \in 1..Cardinality(R) |-> <<"unsub", SetToSeq(R)[n]>>]]
   /\ deps' = (deps \cup A) \ R
   /\ ops' = ops + Cardinality(A \cup R)
-  /\ UNCHANGED <<subscribed, subCh, unsubCh, lock, caller, cop, run, rcv, snap, batchS, batchU, up, silent, srv, fails, amb>>
+  /\ UNCHANGED <<subscribed, subCh, unsubCh, lock, caller, cop, run, rcv, snap, batchS, batchU, up, silent, srv, fails, why, reach, amb>>
 
 (* the applier makes the next call of its message                                  *)
 ApplyNext(i) ==
   /\ caller[i] = "idle" /\ aq[i] # <<>>
   /\ cop' = [cop EXCEPT ![i] = Head(aq[i])] /\ aq' = [aq EXCEPT ![i] = Tail(aq[i])]
   /\ caller' = [caller EXCEPT ![i] = "wantLock"]
-  /\ UNCHANGED <<subscribed, subCh, unsubCh, lock, ops, deps, run, rcv, snap, batchS, batchU, up, silent, srv, fails, amb>>
+  /\ UNCHANGED <<subscribed, subCh, unsubCh, lock, ops, deps, run, rcv, snap, batchS, batchU, up, silent, srv, fails, why, reach, amb>>
 
 \* sync.RWMutex: resubscribe is inside its read section (between ResubLock and ResubSnap)
 ReaderInside == run = "resubSnap"
@@ -149,7 +164,7 @@ WriterWaiting == \E j \in Ap : caller[j] = "waitLock"
 CallLockWait(i) ==
   /\ caller[i] = "wantLock" /\ lock = "free" /\ ReaderInside
   /\ caller' = [caller EXCEPT ![i] = "waitLock"]
-  /\ UNCHANGED <<subscribed, subCh, unsubCh, lock, cop, aq, ops, deps, run, rcv, snap, batchS, batchU, up, silent, srv, fails, amb>>
+  /\ UNCHANGED <<subscribed, subCh, unsubCh, lock, cop, aq, ops, deps, run, rcv, snap, batchS, batchU, up, silent, srv, fails, why, reach, amb>>
 
 (* c.Lock(); membership test; update of the set (discovery.go:284-290 / 295-301). *)
 (* Early return releases the lock at once.  Repaired code: the lock is released   *)
@@ -163,7 +178,7 @@ CallLock(i) ==
           ELSE /\ subscribed' = IF cop[i][1] = "sub" THEN subscribed \cup {s} ELSE subscribed \ {s}
                /\ caller' = [caller EXCEPT ![i] = "enqueue"]
                /\ lock' = IF FixEnqueue THEN "free" ELSE "W"
-  /\ UNCHANGED <<subCh, unsubCh, cop, aq, ops, deps, run, rcv, snap, batchS, batchU, up, silent, srv, fails, amb>>
+  /\ UNCHANGED <<subCh, unsubCh, cop, aq, ops, deps, run, rcv, snap, batchS, batchU, up, silent, srv, fails, why, reach, amb>>
 
 (* c.subCh <- svcName / c.unsubCh <- svcName: blocks while the channel is full    *)
 (* (discovery.go:291 / 302).                                                      *)
@@ -173,12 +188,12 @@ CallEnqueue(i) ==
        THEN /\ Len(subCh) < Cap /\ subCh' = Append(subCh, cop[i][2]) /\ UNCHANGED unsubCh
        ELSE /\ Len(unsubCh) < Cap /\ unsubCh' = Append(unsubCh, cop[i][2]) /\ UNCHANGED subCh
   /\ caller' = [caller EXCEPT ![i] = IF FixEnqueue THEN "idle" ELSE "unlock"]
-  /\ UNCHANGED <<subscribed, lock, cop, aq, ops, deps, run, rcv, snap, batchS, batchU, up, silent, srv, fails, amb>>
+  /\ UNCHANGED <<subscribed, lock, cop, aq, ops, deps, run, rcv, snap, batchS, batchU, up, silent, srv, fails, why, reach, amb>>
 
 (* deferred c.Unlock() (pinned code) *)
 CallUnlock(i) ==
   /\ caller[i] = "unlock" /\ lock' = "free" /\ caller' = [caller EXCEPT ![i] = "idle"]
-  /\ UNCHANGED <<subscribed, subCh, unsubCh, cop, aq, ops, deps, run, rcv, snap, batchS, batchU, up, silent, srv, fails, amb>>
+  /\ UNCHANGED <<subscribed, subCh, unsubCh, cop, aq, ops, deps, run, rcv, snap, batchS, batchU, up, silent, srv, fails, why, reach, amb>>
 
 \* blocked in the channel send on a full queue
 BlockedOnFull(i) ==
@@ -188,20 +203,34 @@ BlockedOnFull(i) ==
 (* c.newStream(ctx) returns a stream (discovery.go:328).  The server starts with  *)
 (* no subscription on a new stream.                                                *)
 NewStreamOK ==
-  /\ run = "newStream"
+  /\ run = "newStream" /\ reach
+  /\ why' = "none" /\ UNCHANGED reach
   /\ up' = TRUE /\ silent' = FALSE /\ srv' = {} /\ amb' = {} /\ run' = "resubLock"
   /\ UNCHANGED <<subscribed, subCh, unsubCh, lock, caller, cop, aq, ops, deps, rcv, snap, batchS, batchU, fails>>
 
 (* c.newStream(ctx) fails (discovery.go:329-332): back to Run, retry timer.       *)
-NewStreamFail ==
+NewStreamFail(k) ==
   /\ run = "newStream" /\ fails < MaxFails
-  /\ fails' = fails + 1 /\ run' = "backoff"
-  /\ UNCHANGED <<subscribed, subCh, unsubCh, lock, caller, cop, aq, ops, deps, rcv, snap, batchS, batchU, up, silent, srv, amb>>
+  /\ fails' = fails + 1 /\ why' = k /\ run' = AfterFailure(k)
+  /\ UNCHANGED <<subscribed, subCh, unsubCh, lock, caller, cop, aq, ops, deps, rcv, snap, batchS, batchU, up, silent, srv, reach, amb>>
+
+(* the discovery server cannot be reached (nothing listens yet): the creation fails; *)
+(* this is not one of the counted failures, it lasts until ServerUp.  DialOnce: the   *)
+(* single connection attempt was made at start and the client has given up.           *)
+NewStreamUnreachable ==
+  /\ run = "newStream" /\ ~reach
+  /\ why' = "Unavailable" /\ run' = IF DialOnce THEN "stopped" ELSE "backoff"
+  /\ UNCHANGED <<subscribed, subCh, unsubCh, lock, caller, cop, aq, ops, deps, rcv, snap, batchS, batchU, up, silent, srv, fails, reach, amb>>
+
+(* Environment: the discovery server starts listening *)
+ServerUp ==
+  /\ ~reach /\ reach' = TRUE
+  /\ UNCHANGED <<subscribed, subCh, unsubCh, lock, caller, cop, aq, ops, deps, run, rcv, snap, batchS, batchU, up, silent, srv, fails, why, amb>>
 
 (* the jittered retry timer fires (discovery.go:316-323)                          *)
 Backoff ==
   /\ run = "backoff" /\ run' = "newStream"
-  /\ UNCHANGED <<subscribed, subCh, unsubCh, lock, caller, cop, aq, ops, deps, rcv, snap, batchS, batchU, up, silent, srv, fails, amb>>
+  /\ UNCHANGED <<subscribed, subCh, unsubCh, lock, caller, cop, aq, ops, deps, rcv, snap, batchS, batchU, up, silent, srv, fails, why, reach, amb>>
 
 (* resubscribe (discovery.go:353-370): RLock; snapshot of the set and flush of     *)
 (* both channels; RUnlock; then Send of the snapshot.  Two steps: ResubLock takes  *)
@@ -222,7 +251,7 @@ ResubLock ==
   /\ \E B \in SUBSET {i \in Ap : BlockedOnFull(i)} :
        caller' = [i \in Ap |-> IF i \in B THEN "idle" ELSE caller[i]]
   /\ run' = "resubSnap"
-  /\ UNCHANGED <<subscribed, lock, cop, aq, ops, deps, rcv, snap, batchS, batchU, up, silent, srv, fails, amb>>
+  /\ UNCHANGED <<subscribed, lock, cop, aq, ops, deps, rcv, snap, batchS, batchU, up, silent, srv, fails, why, reach, amb>>
 
 (* RecursiveRLock: the snapshot calls RLock() again, which waits behind a waiting  *)
 (* writer, which waits for this reader.                                            *)
@@ -233,7 +262,7 @@ ResubSnap ==
   /\ IF subscribed = {}
        THEN run' = "sendSelect" /\ rcv' = "recv"
        ELSE run' = "resubSend" /\ UNCHANGED rcv
-  /\ UNCHANGED <<subscribed, subCh, unsubCh, lock, caller, cop, aq, ops, deps, batchS, batchU, up, silent, srv, fails, amb>>
+  /\ UNCHANGED <<subscribed, subCh, unsubCh, lock, caller, cop, aq, ops, deps, batchS, batchU, up, silent, srv, fails, why, reach, amb>>
 
 (* stream.Send(snapshot, nil) (discovery.go:369); an error ends run() before the  *)
 (* loops are started (335-338).  On a silently dead stream the Send succeeds into *)
@@ -248,35 +277,35 @@ ResubSend ==
         /\ run' = "sendSelect" /\ rcv' = "recv" /\ UNCHANGED <<srv, amb, up, silent>>
      \/ /\ up /\ Cardinality(snap) > MaxPerRequest
         /\ up' = FALSE /\ silent' = FALSE /\ run' = "backoff" /\ UNCHANGED <<srv, amb, rcv>>
-     \/ /\ ~up /\ run' = "backoff" /\ UNCHANGED <<srv, amb, rcv, up, silent>>
+     \/ /\ ~up /\ run' = AfterFailure(why) /\ UNCHANGED <<srv, amb, rcv, up, silent>>
      \/ /\ ~up /\ LossySend /\ run' = "sendSelect" /\ rcv' = "recv" /\ UNCHANGED <<srv, amb, up, silent>>
   /\ snap' = {}
-  /\ UNCHANGED <<subscribed, subCh, unsubCh, lock, caller, cop, aq, ops, deps, batchS, batchU, fails>>
+  /\ UNCHANGED <<subscribed, subCh, unsubCh, lock, caller, cop, aq, ops, deps, batchS, batchU, fails, why, reach>>
 
 (* loopSend: the first select (discovery.go:404-411) and every iteration of the   *)
 (* batch loop (414-425) take one entry of one channel ...                         *)
 SenderTakeSub ==
   /\ run \in {"sendSelect", "sendBatch"} /\ subCh # <<>>
   /\ batchS' = batchS \cup {Head(subCh)} /\ subCh' = Tail(subCh) /\ run' = "sendBatch"
-  /\ UNCHANGED <<subscribed, unsubCh, lock, caller, cop, aq, ops, deps, rcv, snap, batchU, up, silent, srv, fails, amb>>
+  /\ UNCHANGED <<subscribed, unsubCh, lock, caller, cop, aq, ops, deps, rcv, snap, batchU, up, silent, srv, fails, why, reach, amb>>
 
 SenderTakeUnsub ==
   /\ run \in {"sendSelect", "sendBatch"} /\ unsubCh # <<>>
   /\ batchU' = batchU \cup {Head(unsubCh)} /\ unsubCh' = Tail(unsubCh) /\ run' = "sendBatch"
-  /\ UNCHANGED <<subscribed, subCh, lock, caller, cop, aq, ops, deps, rcv, snap, batchS, up, silent, srv, fails, amb>>
+  /\ UNCHANGED <<subscribed, subCh, lock, caller, cop, aq, ops, deps, rcv, snap, batchS, up, silent, srv, fails, why, reach, amb>>
 
 (* ... or see recvDone closed and return, dropping the batch in hand (409, 420);  *)
 (* run() then passes <-recvDone at once (341-343) and Run arms the retry timer.   *)
 SenderStop ==
   /\ run \in {"sendSelect", "sendBatch"} /\ rcv = "done"
-  /\ run' = "backoff" /\ rcv' = "off" /\ batchS' = {} /\ batchU' = {}
-  /\ UNCHANGED <<subscribed, subCh, unsubCh, lock, caller, cop, aq, ops, deps, snap, up, silent, srv, fails, amb>>
+  /\ run' = AfterFailure(why) /\ rcv' = "off" /\ batchS' = {} /\ batchU' = {}
+  /\ UNCHANGED <<subscribed, subCh, unsubCh, lock, caller, cop, aq, ops, deps, snap, up, silent, srv, fails, why, reach, amb>>
 
 (* ... or, in the batch loop only, find nothing ready: goto SEND (422-423)        *)
 SenderDefault ==
   /\ run = "sendBatch" /\ subCh = <<>> /\ unsubCh = <<>> /\ rcv # "done"
   /\ run' = IF FixBatch THEN "sendResolve" ELSE "sendSend"
-  /\ UNCHANGED <<subscribed, subCh, unsubCh, lock, caller, cop, aq, ops, deps, rcv, snap, batchS, batchU, up, silent, srv, fails, amb>>
+  /\ UNCHANGED <<subscribed, subCh, unsubCh, lock, caller, cop, aq, ops, deps, rcv, snap, batchS, batchU, up, silent, srv, fails, why, reach, amb>>
 
 (* repaired code only: a service in both lists is kept in the list that agrees    *)
 (* with the subscribed set, read under the read lock (taken only when needed)     *)
@@ -287,7 +316,7 @@ SenderResolve ==
        /\ batchS' = batchS \ (both \ subscribed)
        /\ batchU' = batchU \ (both \cap subscribed)
   /\ run' = "sendSend"
-  /\ UNCHANGED <<subscribed, subCh, unsubCh, lock, caller, cop, aq, ops, deps, rcv, snap, up, silent, srv, fails, amb>>
+  /\ UNCHANGED <<subscribed, subCh, unsubCh, lock, caller, cop, aq, ops, deps, rcv, snap, up, silent, srv, fails, why, reach, amb>>
 
 (* stream.Send(subscribed, unsubscribed) (discovery.go:428); an error ends        *)
 (* loopSend, run() then waits for loopRecv (341-343).  On a silently dead stream  *)
@@ -305,27 +334,27 @@ SenderSend ==
      \/ /\ ~up /\ run' = "waitRecv" /\ UNCHANGED <<srv, amb, up, silent>>
      \/ /\ ~up /\ LossySend /\ run' = "sendSelect" /\ UNCHANGED <<srv, amb, up, silent>>
   /\ batchS' = {} /\ batchU' = {}
-  /\ UNCHANGED <<subscribed, subCh, unsubCh, lock, caller, cop, aq, ops, deps, rcv, snap, fails>>
+  /\ UNCHANGED <<subscribed, subCh, unsubCh, lock, caller, cop, aq, ops, deps, rcv, snap, fails, why, reach>>
 
 (* <-recvDone after loopSend returned because of a send error                     *)
 WaitRecv ==
   /\ run = "waitRecv" /\ rcv = "done"
-  /\ run' = "backoff" /\ rcv' = "off"
-  /\ UNCHANGED <<subscribed, subCh, unsubCh, lock, caller, cop, aq, ops, deps, snap, batchS, batchU, up, silent, srv, fails, amb>>
+  /\ run' = AfterFailure(why) /\ rcv' = "off"
+  /\ UNCHANGED <<subscribed, subCh, unsubCh, lock, caller, cop, aq, ops, deps, snap, batchS, batchU, up, silent, srv, fails, why, reach, amb>>
 
 (* loopRecv: stream.Recv() fails on a broken stream; close(recvDone) (392-399,    *)
 (* 345-348).  Messages pushed by the server only reach the hook and are not       *)
 (* modelled.  On a silently dead stream Recv keeps blocking.                      *)
 RecvFail ==
   /\ rcv = "recv" /\ ~up /\ rcv' = "done"
-  /\ UNCHANGED <<subscribed, subCh, unsubCh, lock, caller, cop, aq, ops, deps, run, snap, batchS, batchU, up, silent, srv, fails, amb>>
+  /\ UNCHANGED <<subscribed, subCh, unsubCh, lock, caller, cop, aq, ops, deps, run, snap, batchS, batchU, up, silent, srv, fails, why, reach, amb>>
 
 (* Environment: the established stream breaks with an error the client sees       *)
 (* (server restart, RST), at any point of the client's progress.                  *)
-StreamFail ==
+StreamFail(k) ==
   /\ up /\ fails < MaxFails
-  /\ up' = FALSE /\ silent' = FALSE /\ fails' = fails + 1
-  /\ UNCHANGED <<subscribed, subCh, unsubCh, lock, caller, cop, aq, ops, deps, run, rcv, snap, batchS, batchU, srv, amb>>
+  /\ up' = FALSE /\ silent' = FALSE /\ fails' = fails + 1 /\ why' = k
+  /\ UNCHANGED <<subscribed, subCh, unsubCh, lock, caller, cop, aq, ops, deps, run, rcv, snap, batchS, batchU, srv, reach, amb>>
 
 (* Environment: the connection carrying the stream dies without FIN/RST (host     *)
 (* powered off, NAT/LB entry dropped, partition): nothing reaches the server any   *)
@@ -333,29 +362,29 @@ StreamFail ==
 SilentFail ==
   /\ up /\ ~silent /\ fails < MaxFails
   /\ silent' = TRUE /\ fails' = fails + 1
-  /\ UNCHANGED <<subscribed, subCh, unsubCh, lock, caller, cop, aq, ops, deps, run, rcv, snap, batchS, batchU, up, srv, amb>>
+  /\ UNCHANGED <<subscribed, subCh, unsubCh, lock, caller, cop, aq, ops, deps, run, rcv, snap, batchS, batchU, up, srv, why, reach, amb>>
 
 (* Transport: the client keepalive (ping after 30 s without traffic, 10 s for the  *)
 (* answer; config/dynamic.go:90-93) closes the dead connection: from now on Recv    *)
 (* and Send of the stream fail.  Without the dial option this never happens.        *)
 KeepaliveDetect ==
   /\ HasKeepalive /\ up /\ silent
-  /\ up' = FALSE /\ silent' = FALSE
-  /\ UNCHANGED <<subscribed, subCh, unsubCh, lock, caller, cop, aq, ops, deps, run, rcv, snap, batchS, batchU, srv, fails, amb>>
+  /\ up' = FALSE /\ silent' = FALSE /\ why' = "Unavailable"
+  /\ UNCHANGED <<subscribed, subCh, unsubCh, lock, caller, cop, aq, ops, deps, run, rcv, snap, batchS, batchU, srv, fails, reach, amb>>
 
 -----------------------------------------------------------------------------
 ApplierNext(i) == ApplyNext(i) \/ CallLockWait(i) \/ CallLock(i) \/ CallEnqueue(i) \/ CallUnlock(i)
 CallerNext == \E i \in Ap : ApplierNext(i)
-RunNext == NewStreamOK \/ Backoff \/ ResubLock \/ ResubSnap \/ ResubSend \/ SenderTakeSub \/ SenderTakeUnsub
+RunNext == NewStreamOK \/ NewStreamUnreachable \/ Backoff \/ ResubLock \/ ResubSnap \/ ResubSend \/ SenderTakeSub \/ SenderTakeUnsub
              \/ SenderStop \/ SenderDefault \/ SenderResolve \/ SenderSend \/ WaitRecv
 RecvNext == RecvFail
 TransportNext == KeepaliveDetect
 ProxyNext == CallerNext \/ RunNext \/ RecvNext \/ TransportNext
 EnvNext == (\E s \in Svcs, k \in {"sub", "unsub"} : CallStart(s, k))
-             \/ (\E A, R \in SUBSET Svcs : DepMsg(A, R)) \/ NewStreamFail \/ StreamFail \/ SilentFail
+             \/ (\E A, R \in SUBSET Svcs : DepMsg(A, R)) \/ (\E k \in Kinds : NewStreamFail(k) \/ StreamFail(k)) \/ SilentFail \/ ServerUp
 Next == ProxyNext \/ EnvNext
 
-Fairness == (\A i \in Ap : WF_vars(ApplierNext(i))) /\ WF_vars(RunNext) /\ WF_vars(RecvNext) /\ WF_vars(TransportNext)
+Fairness == (\A i \in Ap : WF_vars(ApplierNext(i))) /\ WF_vars(RunNext) /\ WF_vars(RecvNext) /\ WF_vars(TransportNext) /\ WF_vars(ServerUp)
 Spec == Init /\ [][Next]_vars /\ Fairness
 
 -----------------------------------------------------------------------------
